@@ -2,7 +2,7 @@
 (W1 W2 W3 W5 W6 O1 P1 P2 N0)."""
 import ast
 
-from ..model import (AnalysisError, FunctionInfo, ClassInfo, conditional_def, dotted, norm_text,
+from ..model import (fold_ifexp, AnalysisError, FunctionInfo, ClassInfo, conditional_def, dotted, norm_text,
                      names_read, call_args, const_value, is_none)
 from ..cfg import structural_guards
 from ..rules import wiring
@@ -674,18 +674,38 @@ def _w5(prog, res):
                 norm_text(wa) if wa is not None else '<missing>'))
   bl = prog.function(PL + '.build_linear_layer')
   res.analysed(bl)
-  wa_branch = None
-  for st in bl.node.body:
-    if isinstance(st, ast.If) and dotted(st.test) == 'weighted_average':
-      wa_branch = st
+  # by value: what reaches linear_layer.Linear(...) when weighted_average is
+  # set (whatever default / override / branch form assigns it)
+  stmts = guards.trace(prog, bl, {'weighted_average': guards.Val(
+      'flag', 'true')}, both_on_unknown=True)
+  ctor = None
+  for st in stmts:
+    for c in ast.walk(st):
+      if isinstance(c, ast.Call) and isinstance(
+          prog.resolve_call(bl, c), ClassInfo) and prog.resolve_call(
+              bl, c).qualname == 'linear_layer.Linear':
+        ctor = c
+  if ctor is None:
+    raise AnalysisError('build_linear_layer: linear_layer.Linear(...) not '
+                        'found on the weighted_average path')
+  last = {}
+  for st in stmts:
+    st = fold_ifexp(st) if isinstance(st, ast.If) else st
+    if isinstance(st, ast.Assign) and len(st.targets) == 1 and isinstance(
+        st.targets[0], ast.Name):
+      last[st.targets[0].id] = st.value
   vals = {}
-  if wa_branch is not None:
-    for st in wa_branch.body:
-      if isinstance(st, ast.Assign):
-        vals[dotted(st.targets[0])] = st.value
-  m = vals.get('linear_monotonicities')
+  for k in ctor.keywords:
+    v = k.value
+    hops = 0
+    while isinstance(v, ast.Name) and v.id in last and hops < 5:
+      v = last[v.id]
+      hops += 1
+    vals[k.arg] = v
+  m = vals.get('monotonicities')
   good = (m is not None and isinstance(m, ast.BinOp) and isinstance(
-      m.left, ast.List) and const_value(m.left.elts[0]) in (1, 'increasing')
+      m.left, ast.List) and len(m.left.elts) == 1 and const_value(
+          m.left.elts[0]) in (1, 'increasing')
           and const_value(vals.get('normalization_order'), 'x') == 1
           and const_value(vals.get('use_bias'), 'x') is False)
   res.check(good, 'W5', '%s|weighted-average-branch' % bl.qualname, bl.loc(),
